@@ -27,6 +27,73 @@ class C01(Check):
                 for m in range(rng[0] - 3, rng[1] + 4):
                     yield (Z, m)
 
+    # ---------------------------------------------------------------- data files -> table cells
+    NAMED = [  # file, table, macro family suffix, scale, name -> macro stem
+        ('edges.dat', 'EdgeEnergy_arr', '_SHELL', 1e-3, None), ('fluor_yield.dat', 'FluorYield_arr', '_SHELL', 1.0, None),
+        ('jump.dat', 'JumpFactor_arr', '_SHELL', 1.0, None), ('atomiclevelswidth.dat', 'AtomicLevelWidth_arr', '_SHELL', 1e-3, None),
+        ('fluor_lines.dat', 'LineEnergy_arr', '_LINE', 1e-3, None), ('radrate.dat', 'RadRate_arr', '_LINE', 1.0, None),
+        ('coskron.dat', 'CosKron_arr', '_TRANS', 1.0, 'ck'),
+    ]
+
+    def extra_steps(self, ctx, rep):
+        """the named quantity of a data-file record is the header macro of the same name: cell(Z, X_MACRO) of the table
+        compiled into the library must be the 11-significant-digit printing of scale x value of the LAST record (Z, "X")
+        of the file, and 0 where the file has none — checked for every cell of the 7 named tables and the 2 per-Z scalars,
+        independently of the loader's own name tables (an oracle in Python; the loader itself is not modelled in Lean)."""
+        import json, os, re
+        from vlib.core import REPO, unhx
+        vals = json.load(open(ctx.sc.path('aux', 'hdr_vals.json')))
+        ints = {n: v['value'] for n, v in vals.items() if v['kind'] == 'I'}
+        dims = {k: v['dims'] for k, v in ctx.meta['tables'].items()}
+        req = []; exp = []
+        bad = []
+        for fn, table, suf, scale, rule in self.NAMED:
+            recs = {}
+            for l in open(os.path.join(REPO, 'data', fn)):
+                t = l.split()
+                if len(t) != 3: continue
+                try: recs[(int(t[0]), t[1])] = float(t[2])
+                except ValueError: continue
+            fam = {}
+            for n, v in ints.items():
+                if not n.endswith(suf): continue
+                stem = n[:-len(suf)]
+                if rule == 'ck': stem = 'F' + stem[2:] if stem.startswith('FL') else stem       # FL12 -> "F12", FLP13 -> "FP13"
+                col = v if suf != '_LINE' else -v - 1
+                if suf == '_LINE' and v >= 0: continue
+                fam.setdefault(col, set()).add(stem)
+            ncol = dims[table][1]
+            unknown = {nm for (_, nm) in recs} - {s_ for ss in fam.values() for s_ in ss}
+            if fn in ('fluor_lines.dat', 'radrate.dat', 'atomiclevelswidth.dat') and unknown:
+                bad.append('%s: record names without a macro: %s' % (fn, sorted(unknown)[:5]))
+            for Z in range(0, 121):
+                for col in range(ncol):
+                    if col not in fam: continue          # a column no macro designates (e.g. the "F1" slot) is not reachable
+                    v = None
+                    for stem in fam.get(col, ()):        # aliases share a column: any alias name may carry the record
+                        if (Z, stem) in recs: v = recs[(Z, stem)] * scale if scale == 1.0 else recs[(Z, stem)] / 1000.0
+                    req.append('cell %s %d' % (table, Z * ncol + col)); exp.append((table, Z, col, v))
+        for fn, table in (('atomicweight.dat', 'AtomicWeight_arr'), ('densities.dat', 'ElementDensity_arr')):
+            recs = {}
+            for l in open(os.path.join(REPO, 'data', fn)):
+                t = l.split()
+                if len(t) == 2:
+                    try: recs[int(t[0])] = float(t[1])
+                    except ValueError: pass
+            for Z in range(0, 121):
+                req.append('cell %s %d' % (table, Z)); exp.append((table, Z, 0, recs.get(Z)))
+        got = ctx.run_model(req)
+        n_bad = 0
+        for r, (table, Z, col, v), g in zip(req, exp, got):
+            gv = unhx(g.split(' ')[1])
+            want = float('%.10E' % v) if v is not None else None
+            if (want is None and gv > 0) or (want is not None and gv != want and not (want <= 0 and gv <= 0)):
+                n_bad += 1
+                if n_bad <= 3: bad.append('table %s[%d][%d] = %r, data file says %r (-> %r)' % (table, Z, col, gv, v, want))
+        ctx.coverage['datafile_cells_checked'] = len(req)
+        ctx.notes.append('data files vs compiled tables: %d cells, %d differ' % (len(req), n_bad))
+        if bad: rep['tie_broken'].append('data-file records and compiled table cells disagree: ' + '; '.join(bad[:4]))
+
     def corr_lines(self, ctx):
         out = []
         for fn in ACCESSORS:
